@@ -158,7 +158,7 @@ func init() {
 				}
 			}
 			return []*engine.Scenario{
-				req(mk("c03-small", small, [][]world.Op{nil}, []int{4, 1, 0, 2, 0}, 4)),
+				req(mk("c03-small", small, [][]world.Op{nil}, []int{3, 1, 0, 2, 0}, 5)),
 				mk("c03-cycled", small, [][]world.Op{cycled}, []int{3, 1, 0, 2, 0}, 3),
 				mk("c03-magnitude", mag, [][]world.Op{nil}, []int{4, 1, 0, 1, 0}, 5),
 			}
